@@ -1644,6 +1644,19 @@ impl<'a> Exchange<'a> {
     }
 }
 
+/// Verification hooks (feature `verif`): build an `Exchange` handle for an existing slot (what
+/// `Transport::accept_if` does after flipping the slot to `Owned`) and read its coordinates.
+#[cfg(feature = "verif")]
+impl<'a> Exchange<'a> {
+    pub fn verif_new(matter: &'a Matter<'a>, session_id: u32, exchange_index: usize) -> Self {
+        Self::new(ExchangeId::new(session_id, exchange_index), matter)
+    }
+
+    pub fn verif_ids(&self) -> (u32, usize) {
+        (self.id.session_id(), self.id.exchange_index())
+    }
+}
+
 impl Drop for Exchange<'_> {
     fn drop(&mut self) {
         let closed = self.with_state(|state| {
